@@ -145,7 +145,7 @@ func runC20(c *Ctx) {
 		"non-trivial = distinct op line; oracle = run-length spec / exact rational formula computed in the harness"
 	r := c.Rng
 	// ---- RecordPattern / InReverse ----
-	nRows := c.Pick(3000, 200000)
+	nRows := c.Pick(25000, 300000)
 	lens := []int{0, 1, 2, 3, 31, 32, 33, 64, 65}
 	for it := 0; it < nRows; it++ {
 		var n int
@@ -300,7 +300,7 @@ func runC20(c *Ctx) {
 			rec(0)
 		}
 		// exact multiples and scaled perturbed vectors: score(k*c) == score(c)
-		for it := 0; it < c.Pick(60, 3000); it++ {
+		for it := 0; it < c.Pick(600, 5000); it++ {
 			cs := make([]int, n)
 			switch r.Intn(3) {
 			case 0:
